@@ -1002,6 +1002,9 @@ func (x *Exec) doSelect(st *State, i *ssa.Select) {
 			}
 		}
 		mkTuple(q, idx)
+		if idx < 0 {
+			x.fireHooks(q, i, "default", false, nil, nil)
+		}
 		if idx >= 0 {
 			s := i.States[idx]
 			if s.Dir == types.RecvOnly {
